@@ -72,7 +72,20 @@ def gen(rng, tier):
             if rng.random() < 0.2:
                 c = rng.randint(2, 6)
                 lines.append("pnext %d %d" % (c, rng.randint(1, max(1, 2 * W // c + 2))))
-            lines += ["next"] * (rng.randint(0, W) + W * rng.choice([1, 1, 2, 3]))
+            k = rng.randint(0, W) + W * rng.choice([1, 1, 2, 3])
+            if rng.random() < 0.3:
+                # callers that rewrite the URL they were handed; the pool (and later updates of existing servers) must not notice
+                lines += [rng.choice(["next", "nextm"]) for _ in range(k)]
+                if pool:
+                    kk = rng.choice(sorted(pool))
+                    w = pick()
+                    lines.append("upsert %s %d" % (kk, w))
+                    pool[kk] = w
+                    ws2 = list(pool.values())
+                    W2 = min((sum(ws2) // reduce(math.gcd, ws2, 0)) if any(ws2) else 3, 400)
+                    lines += ["next"] * (2 * W2)
+            else:
+                lines += ["next"] * k
         yield lines
 
 
@@ -102,7 +115,7 @@ def _ref_pool_events(ops, outs):
         f = l.split()
         if f[0] in ("cfg",) or l.startswith("#"):
             continue
-        if f[0] == "next":
+        if f[0] in ("next", "nextm"):
             run.append(o)
             continue
         if f[0] == "pnext":
